@@ -8,4 +8,5 @@ let () =
   | [| _; "c10" |] -> Drv_c10.run stdin stdout
   | [| _; "c12" |] -> Drv_c12.run stdin stdout
   | [| _; "c11" |] -> Drv_c11.run stdin stdout
+  | [| _; "c13" |] -> Drv_c13.run stdin stdout
   | _ -> prerr_endline "usage: driver <model>  (script on stdin)"; exit 2
